@@ -136,7 +136,7 @@ static inline int check_header(uoffset_t end, uoffset_t base, uoffset_t offset)
     return k > base && k + offset_size <= end && !(k & (offset_size - 1));
 }
 
-static inline int verify_struct(uoffset_t end, uoffset_t base, uoffset_t offset, uoffset_t size, uint16_t align)
+static inline int verify_struct(const void *buf, uoffset_t end, uoffset_t base, uoffset_t offset, uoffset_t size, uint16_t align)
 {
     /* Structs can have zero size so `end` is a valid value. */
     /* Compare without adding: `base + offset` can wrap. */
@@ -146,7 +146,8 @@ static inline int verify_struct(uoffset_t end, uoffset_t base, uoffset_t offset,
     base += offset;
     verify(base + size >= base, flatcc_verify_error_struct_size_overflow);
     verify(base + size <= end, flatcc_verify_error_struct_out_of_range);
-    verify (!(base & (align - 1u)), flatcc_verify_error_struct_unaligned);
+    /* Alignment is a property of the address, as in verify_field: a nested buffer need not start at a multiple of `align`. */
+    verify (!(((uoffset_t)(size_t)buf + base) & (align - 1u)), flatcc_verify_error_struct_unaligned);
     return flatcc_verify_ok;
 }
 
@@ -276,7 +277,8 @@ static inline int verify_vector(const void *buf, uoffset_t end, uoffset_t base, 
     /* This is due to incorrect buffers from other builders than cannot easily be ignored. */
     align = n == 0 ? uoffset_size : align;
 #endif
-    verify(!(base & ((align - 1u) | (uoffset_size - 1u))), flatcc_verify_error_vector_header_out_of_range_or_unaligned);
+    /* Alignment is a property of the address, as in verify_field: a nested buffer need not start at a multiple of `align`. */
+    verify(!(((uoffset_t)(size_t)buf + base) & ((align - 1u) | (uoffset_size - 1u))), flatcc_verify_error_vector_header_out_of_range_or_unaligned);
     /* `n * elem_size` can overflow uncontrollably otherwise. */
     verify(n <= max_count, flatcc_verify_error_vector_count_exceeds_representable_vector_size);
     verify(end - base >= n * elem_size, flatcc_verify_error_vector_out_of_range);
@@ -439,7 +441,7 @@ int flatcc_verify_union_table(flatcc_union_verifier_descriptor_t *ud, flatcc_tab
 
 int flatcc_verify_union_struct(flatcc_union_verifier_descriptor_t *ud, size_t size, uint16_t align)
 {
-    return verify_struct(ud->end, ud->base, ud->offset, (uoffset_t)size, align);
+    return verify_struct(ud->buf, ud->end, ud->base, ud->offset, (uoffset_t)size, align);
 }
 
 int flatcc_verify_union_string(flatcc_union_verifier_descriptor_t *ud)
@@ -542,25 +544,25 @@ int flatcc_verify_typed_buffer_header_with_size(const void *buf, size_t *bufsiz,
 int flatcc_verify_struct_as_root(const void *buf, size_t bufsiz, const char *fid, size_t size, uint16_t align)
 {
     check_result(flatcc_verify_buffer_header(buf, bufsiz, fid));
-    return verify_struct((uoffset_t)bufsiz, 0, read_uoffset(buf, 0), (uoffset_t)size, align);
+    return verify_struct(buf, (uoffset_t)bufsiz, 0, read_uoffset(buf, 0), (uoffset_t)size, align);
 }
 
 int flatcc_verify_struct_as_root_with_size(const void *buf, size_t bufsiz, const char *fid, size_t size, uint16_t align)
 {
     check_result(flatcc_verify_buffer_header_with_size(buf, &bufsiz, fid));
-    return verify_struct((uoffset_t)bufsiz, uoffset_size, read_uoffset(buf, uoffset_size), (uoffset_t)size, align);
+    return verify_struct(buf, (uoffset_t)bufsiz, uoffset_size, read_uoffset(buf, uoffset_size), (uoffset_t)size, align);
 }
 
 int flatcc_verify_struct_as_typed_root(const void *buf, size_t bufsiz, flatbuffers_thash_t thash, size_t size, uint16_t align)
 {
     check_result(flatcc_verify_typed_buffer_header(buf, bufsiz, thash));
-    return verify_struct((uoffset_t)bufsiz, 0, read_uoffset(buf, 0), (uoffset_t)size, align);
+    return verify_struct(buf, (uoffset_t)bufsiz, 0, read_uoffset(buf, 0), (uoffset_t)size, align);
 }
 
 int flatcc_verify_struct_as_typed_root_with_size(const void *buf, size_t bufsiz, flatbuffers_thash_t thash, size_t size, uint16_t align)
 {
     check_result(flatcc_verify_typed_buffer_header_with_size(buf, &bufsiz, thash));
-    return verify_struct((uoffset_t)bufsiz, uoffset_size, read_uoffset(buf, uoffset_size), (uoffset_t)size, align);
+    return verify_struct(buf, (uoffset_t)bufsiz, uoffset_size, read_uoffset(buf, uoffset_size), (uoffset_t)size, align);
 }
 
 int flatcc_verify_table_as_root(const void *buf, size_t bufsiz, const char *fid, flatcc_table_verifier_f *tvf)
@@ -593,7 +595,7 @@ int flatcc_verify_struct_as_nested_root(flatcc_table_verifier_descriptor_t *td,
     const uoffset_t *buf;
     uoffset_t bufsiz;
 
-    check_result(flatcc_verify_vector_field(td, id, required, align, 1, FLATBUFFERS_COUNT_MAX(1)));
+    check_result(flatcc_verify_vector_field(td, id, required, 1, align, FLATBUFFERS_COUNT_MAX(1)));
     if (0 == (buf = get_field_ptr(td, id))) {
         return flatcc_verify_ok;
     }
@@ -610,7 +612,7 @@ int flatcc_verify_table_as_nested_root(flatcc_table_verifier_descriptor_t *td,
     const uoffset_t *buf;
     uoffset_t bufsiz;
 
-    check_result(flatcc_verify_vector_field(td, id, required, align, 1, FLATBUFFERS_COUNT_MAX(1)));
+    check_result(flatcc_verify_vector_field(td, id, required, 1, align, FLATBUFFERS_COUNT_MAX(1)));
     if (0 == (buf = get_field_ptr(td, id))) {
         return flatcc_verify_ok;
     }
